@@ -87,6 +87,7 @@ pub fn gen_case(rng: &mut Rng, flavour: Flavour, thorough: bool) -> ModelCase {
     weights,
     big_every,
     burst: if many { 30 + rng.below(170) as u32 } else { 0 },
+    savepoints: rng.chance(1, 3),
   };
   let mut ops = gen_ops(rng, &cfg, &p);
   if storage == StorageKind::Fs && !cfg.profile.compact_unsafe() && rng.chance(1, 3) {
@@ -114,7 +115,7 @@ pub fn gen_case(rng: &mut Rng, flavour: Flavour, thorough: bool) -> ModelCase {
       at,
       Op::Relocate {
         original: rng.below(3) as u8,
-        naming: rng.below(3) as u8,
+        naming: rng.below(6) as u8,
       },
     );
     // make sure something happens at the copy
@@ -398,6 +399,8 @@ pub fn run_case(case: &ModelCase, wroot: &Path, flavour: Flavour, stats: &mut St
       // adversarial names: the new path may be a textual prefix of the old one
       // (restore `idx.bak` to `idx`) or extend it (`idx` copied to `idx2`)
       let cur = root.file_name().map(|n| n.to_string_lossy().to_string()).unwrap_or_else(|| "data".into());
+      let shared_storage = *naming >= 3;
+      let naming = &(*naming % 3);
       let name = match naming {
         1 if cur.len() > 1 => cur[..cur.len() - 1].trim_end_matches('.').to_string(),
         2 => format!("{}2", cur),
@@ -430,9 +433,17 @@ pub fn run_case(case: &ModelCase, wroot: &Path, flavour: Flavour, stats: &mut St
       });
       escapes_seen = 0;
       relocated = true;
+      let oldroot = root.clone();
       root = newroot;
       out.trace.push(format!("{} relocate({}) -> {}", step, original, root.file_name().map(|n| n.to_string_lossy().to_string()).unwrap_or_default()));
-      match Session::open(cfg, &root, Some(fs.clone())) {
+      let opened = if shared_storage {
+        stats.inc("probe.copy_opened_through_storage_of_original_root");
+        let st: std::sync::Arc<dyn searchlite_core::storage::Storage> = std::sync::Arc::new(searchlite_core::storage::FsStorage::new(oldroot.clone()));
+        Session::open_custom(cfg, &root, Some(fs.clone()), st)
+      } else {
+        Session::open(cfg, &root, Some(fs.clone()))
+      };
+      match opened {
         Ok(s) => session = s,
         Err(o) => violate!(
           &["C28"],
@@ -593,6 +604,19 @@ pub fn run_case(case: &ModelCase, wroot: &Path, flavour: Flavour, stats: &mut St
           }
         }
         Op::DropWriter { h } => model.drop_writer(*h),
+        Op::Savepoint { h } => {
+          model.savepoint(*h);
+          if !outcome.is_ok() {
+            violate!(&props, "call-failed", "savepoint", step, format!("{} -> {}", op.short(), outcome.short()));
+          }
+        }
+        Op::RollbackTo { h } => {
+          model.rollback_to(*h);
+          stats.inc("probe.partial_rollbacks");
+          if !outcome.is_ok() {
+            violate!(&props, "call-failed", "rollback_to", step, format!("{} -> {}", op.short(), outcome.short()));
+          }
+        }
         Op::Reopen => {
           model.reopen();
           reader_expect.clear();
